@@ -8,8 +8,8 @@ for f in sorted(glob.glob('/verif/seeded/%s-*/meta.json' % pid)):
     m = json.load(open(f))
     prior.append("- %s (files: %s)" % (m.get("summary", "")[:300], ", ".join(m.get("files", []))))
 PRIOR = ("\n\nChanges of this kind were ALREADY produced in an earlier round - do not repeat them or close variants; pick other "
-         "mechanisms, other functions, other input shapes:\n" + "\n".join(prior) + "\n") if prior and "--round2" in sys.argv else ""
-OUT = "out2" if "--round2" in sys.argv else "out"
+         "mechanisms, other functions, other input shapes:\n" + "\n".join(prior) + "\n") if prior and ("--round2" in sys.argv or "--round3" in sys.argv) else ""
+OUT = "out3" if "--round3" in sys.argv else ("out2" if "--round2" in sys.argv else "out")
 prop = [json.loads(l) for l in open('/verif/properties.jsonl') if l.strip() and json.loads(l)['id'] == pid][0]
 D = "/tmp/seed_%s" % pid
 print(f"""You are testing how well a semantic property of a Python library is protected. The library is Crunch-io/crunch-cube (a pure-Python library that turns Crunch.io cube JSON responses into crosstab measures). You have your own scratch git worktree of it at {D}/wt (source under {D}/wt/src/cr/cube, tests under {D}/wt/tests). Work ONLY inside {D} - never touch /repo or /verif, do not read anything under /verif.
